@@ -46,3 +46,14 @@ META.update({
                 note=_X_NOTE),
 })
 META['C04']['text'] += ' The expert driver is run over every pattern of order <=4 as well: a singular return leaves B bit-identical and X unwritten.'
+
+_E2_NOTE = ('Bounded: 6x6 and 8x8 base patterns and their deviation-1 neighbourhoods, the listed tunings/fill estimates/lengths; the workspace sits right-aligned against a PROT_NONE page with canary bytes on both sides; '
+            'library blocks carry red zones; the range vacated by user_bcopy is poisoned. Leaks on failure exits are judged by C19, not here.')
+META.update({
+    'C07': dict(engine='E2 environment/fault enumerator', design_ref='5/C07', technique='exhaustive enumeration of storage scenarios (fill estimates, workspace lengths, alignments, prefill patterns) with bitwise differential oracle',
+                text='For every base case every storage scenario (library allocation with fill estimate 1,2,3,5,30; caller workspace of L_min+{0..64}, 2 L_min, 1 MiB at both alignments and three prefill patterns, with tight fill estimates so that every array kind expands in flight) is executed through xgssvx/xgsisx and its permutations, etree, L, U and solution are compared bit-for-bit with the library-allocation fill-30 run; stat->expansions is checked against the allocation ledger, nnz and mem_usage against the returned factors.',
+                note=_E2_NOTE),
+    'C08': dict(engine='E2 environment/fault enumerator', design_ref='5/C08', technique='exhaustive enumeration of workspace lengths x alignments, size queries and k-th allocation failures on the real drivers with guard pages and canaries',
+                text='Every workspace length of the sweep (each a distinct exhaustion point) at both alignments, every (Fact, Equil, fill) size query and every k-th failing growth request is executed on xgssvx/xgsisx: no crash/hang/abort, canaries and guard page intact, no free of a workspace pointer, allocator invariants hold, and the outcome is either info>n or factors bit-identical to library allocation; a size query changes nothing but info/mem_usage.',
+                note=_E2_NOTE + ' Known finding F5 (size query through the drivers pre-processes A/perm_c/etree first) is reported as KNOWN-FINDING; F14-F16, F18 were repaired by fix: commits.'),
+})
